@@ -1,24 +1,44 @@
 """C20 — fitting a single tree agrees with the library pipeline and the closed form."""
-import contextlib, io, math, os, re
+import contextlib, csv, io, json, math, os, re, types
 import numpy as np
 import common, extract, libgen, fitlib, oracle_mdl
 
-LEAN_MODULE = "ESRVerif.Props.C20"
+LEAN_MODULE = ["ESRVerif.Props.C20", "ESRVerif.Props.C20b"]
 LEVEL = "other"
-LEVEL_TEXT = ("Partial proof. Decided in Lean on tables regenerated from fit_single.single_function: the returned description length is the sum, in source "
+LEVEL_TEXT = ("Partial proof. (1) Decided in Lean on tables regenerated from fit_single.single_function: the returned description length is the sum, in source "
               "order, of the likelihood term and the parameter code length returned by ONE call of the Fisher routine and the tree code length; the three "
               "routines are the pipeline's own (optimise_fun of the fitting stage, convert_params of the Fisher stage, aifeyn_complexity of the generator), so "
-              "the theorems of C10, C07 and C08 (incl. single_function_agrees) apply to the single-tree API verbatim. NOT proved: that two independent "
+              "the theorems of C10, C07 and C08 (incl. single_function_agrees) apply to the single-tree API verbatim. (2) Proved in Lean (Props/C20b, unbounded): "
+              "fisher_vs_match_identity_chain - the pipeline's row for a tree that is its own unique function is computed by a SECOND copy of the snapping / "
+              "code-length logic (match.py) from the raw fitted (theta, nll) and the Hessian diagonal the Fisher stage stored in derivs; over the hand models of "
+              "both routines (C07, C05), for positive finite curvature and under hfin (the likelihood at the snapped parameters is finite - true for every tree "
+              "linear in its parameters), the matching-stage row carries exactly the Fisher stage's reported parameters (zeros included), likelihood and code "
+              "length, both routines on corresponding branches; the two models' number structures are identified by an explicit translation proved to commute "
+              "with every operation used; identity_conv_reads_fisher_diag: what simplifier.convert_params reads back from derivs at the identity chain is the "
+              "Fisher stage's Fisher_diag; hfin_needed: without hfin the statement is false (match.py alone has the 'infinite nll' branch: the pipeline row's code "
+              "length exceeds the single API's by 0.5*ln(12/(theta^2 F))), reproduced on the real routines on every run. Tied to the code by a direct differential "
+              "run of the two REAL routines on the same inputs (real test_all_Fisher.convert_params, its outputs written in the stage file formats, real "
+              "match.main on a library of own-unique functions), independent of the optimiser. NOT proved: that two independent "
               "optimiser runs reach the same optimum (MinimiserSpec) - sampled on every run: the single-tree API (labels entry point and formula-string "
               "entry point) against the pipeline's rows for the same trees and against the closed-form value for trees linear in their parameters, "
               "and the exact-sum identity on the values the API itself reports.")
-TECHNIQUE = "Lean 4 decision over the regenerated assembly of single_function + differential runs single API vs pipeline vs closed form"
+TECHNIQUE = ("Lean 4 decision over the regenerated assembly of single_function + Lean 4 proof that the Fisher-stage and matching-stage copies of the snapping / "
+             "code-length logic coincide on the identity chain (hand models of C07/C05) + differential runs of the two real routines on the same inputs + "
+             "differential runs single API vs pipeline vs closed form")
 RULE = ("one case = one (data set, tree) fitted through single_function and fit_from_string, compared with the pipeline row of the same line and the closed form; "
-        "non-trivial = the tree has >=1 parameter, is linear in them and is not within 5% of a snapping threshold; distinct by (data seed, tree)")
+        "non-trivial = the tree has >=1 parameter, is linear in them and is not within 5% of a snapping threshold; distinct by (data seed, tree).  "
+        "Fisher-vs-match: one case = one (data set, linear model, theta) pushed through the real convert_params and then, via the stage files, through the real "
+        "match.main; distinct by (number of parameters, basis functions, per-coordinate threshold class and sign); non-trivial = at least one parameter")
 EXPLANATION = LEVEL_TEXT
-TRUSTED = ["harness/oracle_mdl.py (closed form)", "harness/extractors/single.py"]
-ASSUMPTIONS = ["MinimiserSpec (numerical): sampled with tolerance 5e-3 in NLL/DL", "the formula-string entry point is compared on formulas whose conversion returns the same label list"]
-MODELLED = ["fit_single.py:single_function", "fit_single.py:fit_from_string"]
+TRUSTED = ["harness/oracle_mdl.py (closed form)", "harness/extractors/single.py",
+           "hand models ESRVerif/Model/Codelen.lean and ESRVerif/Model/Match.lean (tied to the code by the correspondences of C07 and C05, and here by the direct "
+           "differential run of the two real routines)", "'%.7e' text round-off between stages (decisions compared exactly away from |Nsteps-1| < 1e-6 and at exactly "
+           "representable thresholds; magnitudes to 1e-6)"]
+ASSUMPTIONS = ["MinimiserSpec (numerical): sampled with tolerance 5e-3 in NLL/DL", "the formula-string entry point is compared on formulas whose conversion returns the same label list",
+               "fisher_vs_match_identity_chain: hfin (snapping never makes the likelihood infinite) - holds for every tree linear in its parameters with a Gaussian likelihood; "
+               "positive finite Hessian diagonal; sympy/numpy at the identity chain (empty substitution loop, identity Jacobian) return (theta, diag) unchanged - checked by the differential run",
+               "the matching stage reads negloglike_comp<n>.dat (optimiser output) and derivs_comp<n>.dat (Fisher stage), never the Fisher stage's reported parameters (codelen_comp<n>_deriv.dat has no reader)"]
+MODELLED = ["fit_single.py:single_function", "fit_single.py:fit_from_string", "test_all_Fisher.py:convert_params", "match.py:main"]
 
 TOL = 5e-3
 BASIS = [["x", "a"], ["inv"], ["+", "*", "-", "/", "pow"]]
@@ -36,8 +56,311 @@ def _parse_verbose(out):
     return vals
 
 
+# =====================================================================================================================
+# Fisher stage vs matching stage on the identity chain: the two REAL routines on the same inputs (no optimiser)
+# =====================================================================================================================
+
+FVM_SET = "verif_c20b"
+FVM_MAXP = 4
+FVM_BASES = ["x", "1", "x**2", "inv(x)", "sqrt(x)"]
+FVM_CLASSES = {"zero": [0.0], "below": [1e-6, 0.05, 0.3, 0.9], "near-": [1 - 1e-4, 1 - 1e-3], "near+": [1 + 1e-4, 1 + 1e-3], "above": [1.1, 3.0, 100.0]}
+FVM_EXACT_F = [12.0, 3.0, 48.0, 0.75, 192.0]            # sqrt(12/F) is exact: 1, 2, 0.5, 4, 0.25
+FVM_BAND = 1e-6                                          # |Nsteps-1| below this: the '%.7e' round-off of derivs may move the decision
+
+
+def _r7(v):
+    return float("%.7e" % v)
+
+
+def _fvm_basis(b, x):
+    return {"x": x, "1": np.ones_like(x), "x**2": x * x, "inv(x)": 1.0 / x, "sqrt(x)": np.sqrt(x)}[b]
+
+
+def _fvm_fcn(bases):
+    return "+".join(("a%d" % i) if b == "1" else "a%d*%s" % (i, b) for i, b in enumerate(bases))
+
+
+def _fvm_dataset(rng):
+    N = rng.randint(5, 30)
+    x = sorted(round(rng.uniform(0.3, 4.0), 6) for _ in range(N))
+    s0 = 10.0 ** rng.uniform(-1.5, 1.0)
+    s = [s0] * N if rng.random() < 0.5 else [round(s0 * rng.uniform(0.5, 2.0), 8) for _ in range(N)]
+    y = [round(0.8 * xi + 0.3 + si * rng.gauss(0, 1), 8) for xi, si in zip(x, s)]
+    return dict(x=x, y=y, s=s)
+
+
+def _fvm_cases(rng, data, count, nexact):
+    """linear-in-parameter Gaussian models, theta placed per coordinate below / near / above the snapping threshold"""
+    x, sg = np.array(data["x"]), np.array(data["s"])
+    cases = []
+    for t in range(count):
+        n = rng.choice([1, 2, 2, 3, 3])
+        bases = rng.sample(FVM_BASES, n)
+        F = [float(np.sum(_fvm_basis(b, x) ** 2 / sg ** 2)) for b in bases]
+        exact = t < nexact
+        cls, theta, Fset = [], [], []
+        for i in range(n):
+            sgn = rng.choice([-1.0, 1.0])
+            if exact:
+                # curvature forced to a value with exact square roots and an exact '%.7e' image; theta at / next to the threshold
+                Fi = rng.choice(FVM_EXACT_F)
+                c = rng.choice(["at", "at", "at-", "at+", "below", "above"])
+                m = {"at": 1.0, "at-": 1 - 1e-6, "at+": 1 + 1e-6, "below": 0.3, "above": 4.0}[c]
+                th = sgn * m * math.sqrt(12.0 / Fi)
+                Fset.append(Fi)
+            else:
+                c = rng.choice(["zero", "below", "below", "near-", "near+", "above", "above"])
+                th = sgn * rng.choice(FVM_CLASSES[c]) * math.sqrt(12.0 / F[i]) + 0.0
+            cls.append(c + ("+" if sgn > 0 else "-"))
+            theta.append(_r7(th))                      # the optimiser's output reaches both stages through a '%.7e' file
+        cases.append(dict(bases=bases, fcn=_fvm_fcn(bases), n=n, theta=theta, cls=cls, Fset=(Fset if exact else None)))
+    return cases
+
+
+class _HessInject(object):
+    """stands in for numdifftools inside test_all_Fisher for the exact-threshold rows only: the real numerical Hessian with its
+    diagonal replaced by prescribed, exactly representable values (the Hessian is an input of both routines, C07)"""
+    def __init__(self, real_nd):
+        self.real_nd, self.diag = real_nd, None
+
+    def Hessian(self, fop, **kw):
+        h = self.real_nd.Hessian(fop, **kw)
+        outer = self
+
+        def call(theta):
+            H = np.array(h(theta), dtype=float)
+            if outer.diag is not None:
+                for i, v in enumerate(outer.diag):
+                    H[i, i] = v
+            return H
+        return call
+
+
+def _fvm_run(ctx, tag, data, cases):
+    """-> list of dict(fisher=..., match=..., ...) one per case.  Steps, all through the real code of the staged tree:
+    negloglike_comp (theta, nll) -> load_loglike -> convert_params -> derivs_comp ('%.7e', as test_all_Fisher.main writes it)
+    -> match.main on a library whose functions are their own unique functions (empty inv_subs rows) -> codelen_matches_comp"""
+    import sympy
+    import numdifftools as real_nd
+    import esr.fitting.likelihood as L
+    import esr.fitting.test_all_Fisher as taf
+    import esr.fitting.match as match
+    comp = 1
+    dd = os.path.join(ctx.tmp, "c20b_%s" % tag)
+    os.makedirs(os.path.join(dd, "fitting"), exist_ok=True)
+    np.savetxt(os.path.join(dd, "d.txt"), np.c_[data["x"], data["y"], data["s"]], fmt="%.17g")
+    run = "c20b_%s" % tag
+    with contextlib.redirect_stdout(io.StringIO()):
+        lik = L.GaussLikelihood("d.txt", run, data_dir=dd, fn_set=FVM_SET + "_" + tag)
+    lib = os.path.join(lik.fn_dir, "compl_%d" % comp)
+    for d in (lib, lik.out_dir, lik.temp_dir):
+        os.makedirs(d, exist_ok=True)
+    fcns = [c["fcn"] for c in cases] + ["x"]                 # + a parameter-free function (and never a 1-row table)
+    for name in ("unique_equations", "all_equations"):
+        with open(os.path.join(lib, "%s_%d.txt" % (name, comp)), "w") as fh:
+            fh.writelines(f + "\n" for f in fcns)
+    np.savetxt(os.path.join(lib, "matches_%d.txt" % comp), np.arange(len(fcns), dtype=float))
+    with open(os.path.join(lib, "inv_subs_%d.txt" % comp), "w") as fh:
+        w = csv.writer(fh, delimiter=";")
+        for _ in fcns:
+            w.writerow([])                                    # own unique function: the chain of substitutions is empty
+    # ---- the optimiser's file ---------------------------------------------------------------------------------------
+    nl = np.zeros((len(fcns), 1 + FVM_MAXP))
+    eqs = []
+    with np.errstate(all="ignore"):
+        for i, f in enumerate(fcns):
+            fc, eq, integ = lik.run_sympify(f)
+            n = cases[i]["n"] if i < len(cases) else 0
+            syms = list(sympy.symbols(" ".join("a%d" % j for j in range(n)), real=True)) if n > 1 else ([sympy.symbols("a0", real=True)] if n == 1 else [])
+            from esr.fitting.sympy_symbols import x as sx
+            eq_numpy = sympy.lambdify([sx] + syms, eq, modules=["numpy"])
+            th = cases[i]["theta"] if i < len(cases) else []
+            nl[i, 0] = float(lik.negloglike(np.array(th, dtype=float), eq_numpy))
+            nl[i, 1:1 + n] = th
+            eqs.append((fc, eq, integ))
+    np.savetxt(os.path.join(lik.out_dir, "negloglike_comp%d.dat" % comp), nl, fmt="%.7e")
+    # ---- Fisher stage: the real routine, row by row, on what load_loglike returns --------------------------------------
+    inj = _HessInject(real_nd)
+    fisher = []
+    deriv_rows = np.full((len(fcns), FVM_MAXP * (FVM_MAXP + 1) // 2), np.nan)
+    with contextlib.redirect_stdout(io.StringIO()), np.errstate(all="ignore"):
+        negloglike, params_meas = taf.load_loglike(comp, lik, 0, len(fcns), split=False)
+        for i, f in enumerate(fcns):
+            fc, eq, integ = eqs[i]
+            inj.diag = cases[i]["Fset"] if i < len(cases) else None
+            saved = taf.nd
+            if inj.diag is not None:
+                taf.nd = types.SimpleNamespace(Hessian=inj.Hessian)
+            try:
+                pr, nll, deriv, cl = taf.convert_params(fc, eq, integ, params_meas[i, :].copy(), lik, float(negloglike[i]), max_param=FVM_MAXP)
+                fisher.append(dict(params=[float(v) for v in pr], nll=float(nll), codelen=float(cl), deriv=[float(v) for v in deriv],
+                                   theta_in=[float(v) for v in params_meas[i, :]], nll_in=float(negloglike[i]), raised=None))
+                deriv_rows[i, :] = deriv
+            except BaseException as e:
+                fisher.append(dict(raised="%s: %s" % (type(e).__name__, e)))
+            finally:
+                taf.nd = saved
+    np.savetxt(os.path.join(lik.out_dir, "derivs_comp%d.dat" % comp), deriv_rows, fmt="%.7e")
+    # ---- matching stage: the real main -------------------------------------------------------------------------------------
+    mres = dict(raised=None)
+    buf = io.StringIO()
+    try:
+        with contextlib.redirect_stdout(buf), np.errstate(all="ignore"):
+            match.main(comp, lik)
+        out = np.atleast_2d(np.loadtxt(os.path.join(lik.out_dir, "codelen_matches_comp%d.dat" % comp)))
+    except BaseException as e:
+        mres["raised"] = "%s: %s" % (type(e).__name__, e)
+        out = None
+    res = []
+    for i, c in enumerate(cases):
+        m = None
+        if out is not None and i < out.shape[0]:
+            m = dict(nll=float(out[i, 0]), codelen=float(out[i, 1]), index=float(out[i, 2]), params=[float(v) for v in out[i, 3:3 + FVM_MAXP]])
+        res.append(dict(case=c, fisher=fisher[i], match=m, match_raised=mres["raised"], nrows=None if out is None else int(out.shape[0]), nfun=len(fcns)))
+    return res
+
+
+def _cls(v):
+    return "nan" if v != v else ("inf" if v == float("inf") else ("-inf" if v == float("-inf") else "fin"))
+
+
+def _close(a, b, rel=1e-6, ab=1e-6):
+    if _cls(a) != "fin" or _cls(b) != "fin":
+        return _cls(a) == _cls(b)
+    return abs(a - b) <= rel * max(abs(a), abs(b)) + ab
+
+
+def _fvm_compare(r):
+    """the statement of fisher_vs_match_identity_chain on the two real outputs -> (list of (kind, message), info)"""
+    c, F, M = r["case"], r["fisher"], r["match"]
+    bad = []
+    if F.get("raised"):
+        return [("fisher-raises", "convert_params raises %s" % F["raised"])], {}
+    if r["match_raised"] or M is None:
+        return [("match-raises", "match.main raises / writes no row: %s (rows %r for %r functions)" % (r["match_raised"], r["nrows"], r["nfun"]))], {}
+    n = c["n"]
+    # Nsteps as the Fisher stage saw it (diagonal of its own deriv output)
+    diag = [F["deriv"][int(i * FVM_MAXP - (i - 1) * i / 2)] for i in range(n)]
+    with np.errstate(all="ignore"):
+        ns = [abs(t) * math.sqrt(d / 12.0) if d > 0 else float("nan") for t, d in zip(F["theta_in"][:n], diag)]
+    exact = c["Fset"] is not None
+    amb = (not exact) and any(abs(v - 1) < FVM_BAND for v in ns)
+    info = dict(nsteps=ns, ambiguous=amb, snapped=sum(1 for v in F["params"][:n] if v == 0.0), exact=exact,
+                at_threshold=exact and any(v == 1.0 for v in ns))
+    if exact and any(_r7(d) != d for d in diag):
+        return [], dict(info, ambiguous=True)                # the forced curvature did not survive: not an exact row after all
+    if amb:
+        return [], info
+    zF = [v == 0.0 for v in F["params"]]
+    zM = [v == 0.0 for v in M["params"]]
+    if zF != zM:
+        bad.append(("zero-mask", "zero mask differs: Fisher stage reports params %r, matching stage %r (Nsteps %r)" % (F["params"], M["params"], ns)))
+    elif not all(_close(a, b, 1e-6, 0.0) for a, b in zip(F["params"], M["params"])):
+        bad.append(("params", "parameters differ: Fisher stage %r, matching stage %r" % (F["params"], M["params"])))
+    if not _close(F["nll"], M["nll"], 1e-6, 1e-9):
+        bad.append(("nll", "likelihood differs: Fisher stage %r, matching stage %r" % (F["nll"], M["nll"])))
+    if not _close(F["codelen"], M["codelen"], 1e-6, 1e-6):
+        bad.append(("codelen", "parameter code length differs: Fisher stage %r, matching stage %r (theta %r, Hessian diagonal %r, Nsteps %r)"
+                    % (F["codelen"], M["codelen"], F["theta_in"][:n], diag, ns)))
+    if M["index"] != r.get("line", M["index"]):
+        bad.append(("index", "row index %r" % M["index"]))
+    return bad, info
+
+
+def _fvm_key(c):
+    return "n=%d:%s:%s" % (c["n"], ",".join(c["bases"]), ",".join(c["cls"]))
+
+
+def fisher_vs_match(ctx, deep):
+    nsets = 4 if not deep else 16
+    per = 75 if not deep else 250
+    nex = 18 if not deep else 60
+    tot = dict(cases=0, compared=0, ambiguous=0, snapped_rows=0, at_threshold=0, exact=0, kzero=0, by_n={1: 0, 2: 0, 3: 0}, classes={})
+    nbad = 0
+    for d in range(nsets):
+        data = _fvm_dataset(ctx.rng)
+        cases = _fvm_cases(ctx.rng, data, per, nex)
+        try:
+            res = _fvm_run(ctx, "s%d" % d, data, cases)
+        except Exception as e:
+            ctx.disagree("fvm:harness", "could not drive the two stages: %r" % (e,)); continue
+        for i, r in enumerate(res):
+            r["line"] = float(i)
+            c = r["case"]
+            bad, info = _fvm_compare(r)
+            tot["cases"] += 1
+            ctx.case(("fvm", _fvm_key(c)), nontrivial=True)
+            if info.get("ambiguous"):
+                tot["ambiguous"] += 1; continue
+            tot["compared"] += 1
+            tot["by_n"][c["n"]] += 1
+            for k_ in c["cls"]:
+                tot["classes"][k_[:-1]] = tot["classes"].get(k_[:-1], 0) + 1
+            if info.get("snapped"):
+                tot["snapped_rows"] += 1
+                if info["snapped"] == c["n"]:
+                    tot["kzero"] += 1
+            tot["exact"] += int(bool(info.get("exact"))); tot["at_threshold"] += int(bool(info.get("at_threshold")))
+            for kind, msg in bad:
+                nbad += 1
+                ctx.fail("fisher-vs-match:%s" % kind,
+                         "own-unique function %s, theta=%r: %s" % (c["fcn"], c["theta"], msg),
+                         dict(kind="fvm", data=data, case=c))
+            if i < 2 and d == 0:
+                ctx.sample(dict(kind="fisher-vs-match", fcn=c["fcn"], theta=c["theta"], classes=c["cls"], fisher_stage=dict(params=r["fisher"].get("params"), nll=r["fisher"].get("nll"), codelen=r["fisher"].get("codelen")),
+                                matching_stage=r["match"]), cap=8)
+    tot["by_n"] = {str(k): v for k, v in tot["by_n"].items()}
+    ctx.extra["fisher_vs_match"] = tot
+    ctx.extra["fisher_vs_match_mismatches"] = nbad
+    return tot
+
+
+# ---- the excluded point of fisher_vs_match_identity_chain (hfin fails) on the real routines ------------------------------------
+
+def excluded_point(ctx):
+    """one parameter below threshold whose removal makes the likelihood +inf: theorem `hfin_needed` predicts
+    codelen(match) - codelen(Fisher) = 0.5*ln(12/(theta^2 F)) > 0, same parameters, same likelihood"""
+    x = [0.5, 1.0, 1.5, 2.0, 2.5]
+    wit = []
+    for fcn, n, theta, truth in (("x*inv(a0)", 1, [40.0], lambda v: v / 40.0), ("a0*x+inv(a1)", 2, [0.9, 25.0], lambda v: 0.9 * v + 0.04)):
+        data = dict(x=x, y=[round(truth(v) + 1e-3 * (-1) ** k, 6) for k, v in enumerate(x)], s=[0.5] * 5)     # theta is (nearly) the ML point: positive curvature
+        c = dict(bases=["pole"], fcn=fcn, n=n, theta=[_r7(t) for t in theta], cls=["pole"], Fset=None)
+        try:
+            r = _fvm_run(ctx, "x%d" % n, data, [c])[0]
+        except Exception as e:
+            ctx.disagree("fvm:excluded-point", "could not drive the two stages at the excluded point: %r" % (e,)); continue
+        F, M = r["fisher"], r["match"]
+        w = dict(fcn=fcn, theta=c["theta"], fisher_stage={k: F.get(k) for k in ("params", "nll", "codelen", "raised")}, matching_stage=M)
+        if not F.get("raised") and M is not None:
+            j = n - 1
+            Fjj = F["deriv"][int(j * FVM_MAXP - (j - 1) * j / 2)]
+            pred = 0.5 * math.log(12.0 / (c["theta"][j] ** 2 * Fjj)) if Fjj > 0 else float("nan")
+            w.update(nsteps=abs(c["theta"][j]) * math.sqrt(Fjj / 12.0) if Fjj > 0 else None, predicted_difference=pred,
+                     observed_difference=M["codelen"] - F["codelen"], same_params=[a == 0 for a in F["params"]] == [a == 0 for a in M["params"]],
+                     same_nll=_close(F["nll"], M["nll"], 1e-6, 1e-9))
+            ok = _cls(pred) == "fin" and abs((M["codelen"] - F["codelen"]) - pred) <= 1e-5 * max(1.0, abs(pred)) and w["same_params"] and w["same_nll"] and pred > 0
+            w["as_hfin_needed_predicts"] = bool(ok)
+            if not ok:
+                ctx.disagree("corr:hfin_needed", "at the excluded point the real routines do not behave as theorem hfin_needed says: %r" % (w,))
+        wit.append(w)
+    ctx.extra["excluded_point_witness"] = dict(
+        note="hypothesis hfin of fisher_vs_match_identity_chain fails here (likelihood +inf once the below-threshold parameter is zeroed; not a tree linear in its "
+             "parameters, outside C20's quantifier): test_all_Fisher.convert_params restores theta and keeps the measured curvature, match.main takes its "
+             "'infinite nll' branch (fish = 12/p**2): same parameters, same likelihood, larger parameter code length in the pipeline row",
+        runs=wit)
+
+
 def run(ctx):
     deep = not ctx.quick
+    drift = extract.drifted(ctx.proof.get("extract", {}), ["test_all_Fisher.py:convert_params", "match.py:main", "simplifier.py:convert_params"]) if ctx.proof else []
+    if drift:
+        ctx.extra["drift_escalation"] = drift
+    # ---- Fisher stage vs matching stage, the two real routines on the same inputs --------------------------------------
+    import time as _time
+    t0 = _time.time()
+    fisher_vs_match(ctx, deep or bool(drift))
+    excluded_point(ctx)
+    ctx.extra["fisher_vs_match_wall_s"] = round(_time.time() - t0, 2)
     comp = 4
     g = libgen.generate(ctx, "core_maths", list(range(1, comp + 1)), P=1, copy="c20_lib")
     if not g["ok"]:
@@ -113,10 +436,22 @@ def run(ctx):
             except Exception:
                 ctx.extra["string_entry_raised"] = ctx.extra.get("string_entry_raised", 0) + 1
             ctx.sample(dict(labels=labels, fcn=f, single=[nll, DL], closed_form=[cf["nll"], dl_cf], reported=rep), cap=4)
-    ctx.extra["corr_obligations"] = 1
-    ctx.extra["corr_discharged"] = int(not ctx.failures)
+    ctx.extra["corr_obligations"] = 3
+    ctx.extra["corr_discharged"] = (int(not any(f["key"].startswith("single") or f["key"].startswith("string") or f["key"].startswith("pipeline") for f in ctx.failures))
+                                    + int(not any(f["key"].startswith("fisher-vs-match") for f in ctx.failures) and not any(d["name"] == "fvm:harness" for d in ctx.disagreements))
+                                    + int(not any(d["name"] in ("corr:hfin_needed", "fvm:excluded-point") for d in ctx.disagreements)))
 
 
 def replay(ctx, data):
+    data = data.get("replay", data)
+    if data.get("kind") == "fvm":
+        r = _fvm_run(ctx, "replay", data["data"], [data["case"]])[0]
+        r["line"] = 0.0
+        bad, info = _fvm_compare(r)
+        print("replay: Fisher stage %r" % ({k: r["fisher"].get(k) for k in ("params", "nll", "codelen", "raised")},))
+        print("replay: matching stage %r" % (r["match"],))
+        for kind, msg in bad:
+            print("replay: %s: %s" % (kind, msg))
+        return not bad
     print("replay: re-run `check.py C20` with VERIF_SEED=%s (the data set is derived from the seed)" % data.get("seed"))
     return True
